@@ -4,7 +4,6 @@ use std::collections::{BTreeMap, HashSet, VecDeque};
 use std::sync::{Arc, Mutex};
 use std::time::{Duration, Instant};
 
-use proptest::strategy::Strategy;
 use proptest::test_runner::{Config, RngAlgorithm, TestCaseError, TestError, TestRng, TestRunner};
 use serde_json::{json, Value};
 
@@ -47,7 +46,9 @@ impl Partial {
         self.nontrivial.extend(o.nontrivial);
         self.nontrivial_enumerated += o.nontrivial_enumerated;
         for s in o.samples {
-            if self.samples.len() < 12 {
+            if s.get("engine").and_then(|e| e.as_str()) == Some("scan") {
+                self.samples.insert(0, s);
+            } else if self.samples.len() < 12 {
                 self.samples.push(s);
             }
         }
